@@ -138,13 +138,22 @@ def gen_glyphset(rng, n_glyphs=None, gradients=True, groups=True, reuse=True):
             if reuse and pool and rng.random() < 0.45:
                 # a congruent / similar copy of an earlier shape (translation, flip, scale)
                 src = rng.choice(pool)
-                kind = rng.choice(["t", "t", "flip", "scale"])
+                kind = rng.choice(["t", "t", "flip", "scale", "vflip", "rot", "scalexy"])
                 cx = sum(p[0] for p in src) / len(src)
                 cy = sum(p[1] for p in src) / len(src)
                 if kind == "t":
                     m = (1, 0, 0, 1, rng.randint(-8, 8), rng.randint(-8, 8))
                 elif kind == "flip":
                     m = (-1, 0, 0, 1, 2 * cx, 0)
+                elif kind == "vflip":
+                    m = (1, 0, 0, -1, 0, 2 * cy)
+                elif kind == "rot":
+                    a = math.radians(rng.choice([30, 90, -45]))
+                    ca, sa = math.cos(a), math.sin(a)
+                    m = (ca, sa, -sa, ca, cx - ca * cx + sa * cy, cy - sa * cx - ca * cy)
+                elif kind == "scalexy":
+                    sx_, sy_ = rng.choice([(1.0, 0.5), (0.5, 1.0), (0.75, 0.5)])
+                    m = (sx_, 0, 0, sy_, cx * (1 - sx_), cy * (1 - sy_))
                 else:
                     s = rng.choice([0.5, 0.75])
                     m = (s, 0, 0, s, cx * (1 - s), cy * (1 - s))
